@@ -267,7 +267,7 @@ class _PackedBoolArray:
                 else:
                     _stop = key.stop
 
-                if _stop > self.size or _stop < start_index:
+                if _stop > self.size or _stop < key_start:
                     raise ValueError("Slice stop is out of range.")
 
                 # We need to know how to slice the data buffer and
